@@ -163,7 +163,7 @@ func runC11(res *hx.Result, rng *hx.Rng, tier string, outdir string) {
 	scs := c11Fixed()
 	nrand := 0
 	if tier == "thorough" {
-		nrand = 48
+		nrand = 108
 	}
 	for k := 0; k < nrand; k++ {
 		scs = append(scs, c11Random(rng, k))
@@ -174,6 +174,9 @@ func runC11(res *hx.Result, rng *hx.Rng, tier string, outdir string) {
 		// late faults first: they have the most handlers registered before the loss
 		sort.SliceStable(js, func(a, b int) bool { return js[a].f.pos > js[b].f.pos })
 		jobs = append(jobs, js...)
+	}
+	if tier == "thorough" { // every run twice more: the goroutines after the loss are scheduled by the runtime
+		jobs = append(append(append([]c11Job{}, jobs...), jobs...), jobs...)
 	}
 	obs := make([]*c11Obs, len(jobs))
 	next := int32(-1)
@@ -233,6 +236,13 @@ func runC11(res *hx.Result, rng *hx.Rng, tier string, outdir string) {
 		}
 	}
 	cf.Flush()
+	if atomic.LoadInt32(&c11HungFail) == 0 {
+		reps := 2
+		if tier == "thorough" {
+			reps = 20
+		}
+		c11RealPipe(res, hang, reps)
+	}
 	res.Exhaustive = skipped == 0
 	if skipped > 0 {
 		res.Notes = append(res.Notes, fmt.Sprintf("%d runs skipped after %d runs hit a deadline", skipped, atomic.LoadInt32(&c11Hung)))
